@@ -313,11 +313,228 @@ Definition site_witness (s : lsite) : json :=
   | L_objlist_skip_last | L_choice_ocp_get | L_hashmap_value | L_int_hashmap_val => JNull
   end.
 
+(* ---------- monotonicity in the site table ---------- *)
+(* [le r1 r2]: r2 is what r1 becomes when more sites panic: accepted documents
+   and their results are unchanged, an error stays that error or becomes a panic. *)
+Definition le {A} (r1 r2 : Res A) : Prop :=
+  match r1 with
+  | Ok a => r2 = Ok a
+  | Err k m => r2 = Err k m \/ is_panic r2 = true
+  | Panic _ => is_panic r2 = true
+  end.
+
+Lemma le_refl {A} (r : Res A) : le r r.
+Proof. destruct r; cbn; auto. Qed.
+
+Lemma le_bind {A B} (m1 m2 : Res A) (f1 f2 : A -> Res B) :
+  le m1 m2 -> (forall a, le (f1 a) (f2 a)) -> le (bind m1 f1) (bind m2 f2).
+Proof.
+  intros Hm Hf. destruct m1 as [a|k e|s]; cbn in Hm.
+  - subst m2. cbn. apply Hf.
+  - destruct Hm as [->|Hp]; cbn; [now left|]. right. destruct m2; try discriminate Hp. reflexivity.
+  - destruct m2; try discriminate Hm. reflexivity.
+Qed.
+
+Lemma le_mapM {A B} (f1 f2 : A -> Res B) l : (forall x, le (f1 x) (f2 x)) -> le (mapM f1 l) (mapM f2 l).
+Proof.
+  intros H. induction l as [|x r IH]; cbn [mapM]; [reflexivity|].
+  apply le_bind; [apply H|]. intros y. apply le_bind; [exact IH|]. intros ys. reflexivity.
+Qed.
+
+Lemma le_foldM {A S} (f1 f2 : S -> A -> Res S) l :
+  (forall s x, le (f1 s x) (f2 s x)) -> forall s, le (foldM f1 l s) (foldM f2 l s).
+Proof.
+  intros H. induction l as [|x r IH]; cbn [foldM]; intros s; [reflexivity|].
+  apply le_bind; [apply H|]. intros s'. apply IH.
+Qed.
+
+Section Mono.
+  Variables p1 p2 : lsite -> bool.
+  Hypothesis Hle : forall s, p1 s = true -> p2 s = true.
+
+  Lemma le_site {A} s (o : option A) : le (site p1 s o) (site p2 s o).
+  Proof.
+    destruct o; cbn; [reflexivity|]. destruct (p1 s) eqn:E1.
+    - rewrite (Hle s E1). reflexivity.
+    - destruct (p2 s); cbn; auto.
+  Qed.
+
+  Ltac mstep :=
+    first [ apply le_refl | apply le_site | apply le_bind; [|intros ?] ].
+
+  Lemma le_jstr s : le (jstr_to_obj p1 s) (jstr_to_obj p2 s).
+  Proof.
+    destruct s as [|c r]; cbn [jstr_to_obj]; [apply le_site|].
+    repeat match goal with
+           | |- le (if ?b then _ else _) _ => destruct b
+           | |- le (match ?o with Some _ => _ | None => _ end) _ => destruct o
+           end; apply le_refl.
+  Qed.
+
+  Lemma le_tags o : le (jarray_to_tags_gen p1 o) (jarray_to_tags_gen p2 o).
+  Proof.
+    unfold jarray_to_tags_gen. destruct (assoc _ o); [|apply le_refl].
+    apply le_bind; [apply le_site|intros arr]. apply le_mapM. intros; apply le_site.
+  Qed.
+
+  Lemma le_choice o : le (jobject_to_choice_gen p1 o) (jobject_to_choice_gen p2 o).
+  Proof.
+    unfold jobject_to_choice_gen.
+    repeat (apply le_bind; [try apply le_site|intros ?]); [apply le_tags|apply le_refl].
+  Qed.
+
+  Lemma le_jlist o pv : le (jlist_to_obj p1 o pv) (jlist_to_obj p2 o pv).
+  Proof.
+    unfold jlist_to_obj.
+    apply le_bind; [apply le_site|intros content].
+    apply le_bind; [|intros names].
+    - destruct (assoc _ o); [|apply le_refl]. apply le_bind; [apply le_site|intros arr].
+      apply le_mapM; intros; apply le_site.
+    - apply le_bind; [|intros; apply le_refl]. apply le_foldM. intros acc kv.
+      apply le_bind; [apply le_site|intros; apply le_refl].
+  Qed.
+
+  Lemma le_jdivert o v pushes ty ext :
+    le (jdivert_to_obj p1 o v pushes ty ext) (jdivert_to_obj p2 o v pushes ty ext).
+  Proof.
+    unfold jdivert_to_obj. apply le_bind; [apply le_site|intros target].
+    apply le_bind; [|intros; apply le_refl].
+    destruct ext; [|apply le_refl]. destruct (assoc _ o); [|apply le_refl].
+    apply le_bind; [apply le_site|intros; apply le_refl].
+  Qed.
+
+  Lemma le_jobj o : le (jobj_to_obj p1 o) (jobj_to_obj p2 o).
+  Proof.
+    unfold jobj_to_obj.
+    repeat match goal with
+           | |- le (match aget o ?k with Some _ => _ | None => _ end) _ => destruct (aget o k)
+           | |- le (match ?x with Some _ => _ | None => _ end) _ => destruct x as [[? ?]|]
+           end;
+    try apply le_jdivert; try apply le_jlist; try apply le_choice;
+    repeat first [ apply le_refl | apply le_site
+                 | apply le_bind; [|intros ?]
+                 | match goal with |- le (match aget o ?k with Some _ => _ | None => _ end) _ => destruct (aget o k) end ].
+  Qed.
+
+  Section ArrLe.
+    Variables rec1 rec2 : json -> option text -> Res obj.
+
+    Lemma le_term_entry st k v : (forall n, le (rec1 v n) (rec2 v n)) ->
+      le (term_entry p1 rec1 st k v) (term_entry p2 rec2 st k v).
+    Proof.
+      intros Hv. unfold term_entry.
+      destruct (text_eqb k (T "#f")).
+      { apply le_bind; [apply le_site|intros z]. apply le_bind; [apply le_site|intros; apply le_refl]. }
+      destruct (text_eqb k (T "#n")).
+      { apply le_bind; [apply le_site|intros; apply le_refl]. }
+      apply le_bind.
+      - specialize (Hv (Some k)). destruct (rec1 v (Some k)) as [o|e m|s]; cbn in Hv.
+        + rewrite Hv. reflexivity.
+        + destruct (p1 L_named_item_err) eqn:E1.
+          * rewrite (Hle _ E1). destruct Hv as [->|Hp]; [reflexivity|].
+            destruct (rec2 v (Some k)); try discriminate Hp. reflexivity.
+          * destruct Hv as [->|Hp].
+            -- destruct (p2 L_named_item_err); cbn; auto.
+            -- destruct (rec2 v (Some k)); try discriminate Hp. cbn. now right.
+        + destruct (rec2 v (Some k)); try discriminate Hv. reflexivity.
+      - intros o. apply le_bind; [apply le_site|intros; apply le_refl].
+    Qed.
+
+    Lemma le_term_fold kvs : Forall (fun kv => forall n, le (rec1 (snd kv) n) (rec2 (snd kv) n)) kvs ->
+      forall st, le (term_fold p1 rec1 kvs st) (term_fold p2 rec2 kvs st).
+    Proof.
+      induction 1 as [|[k v] r Hkv Hr IH]; intros st; cbn [term_fold]; [reflexivity|].
+      apply le_bind; [apply le_term_entry; exact Hkv|]. intros st'. apply IH.
+    Qed.
+
+    Definition elem_le (x : json) : Prop :=
+      (forall n, le (rec1 x n) (rec2 x n)) /\
+      match x with
+      | JObj kvs => Forall (fun kv => forall n, le (rec1 (snd kv) n) (rec2 (snd kv) n)) kvs
+      | _ => True
+      end.
+
+    Lemma le_terminator x name : elem_le x -> le (terminator p1 rec1 x name) (terminator p2 rec2 x name).
+    Proof. intros [_ H]. destruct x; try reflexivity. cbn [terminator]. now apply le_term_fold. Qed.
+
+    Lemma le_arr_walk l name : Forall elem_le l ->
+      le (fst (arr_walk p1 rec1 l name)) (fst (arr_walk p2 rec2 l name))
+      /\ le (snd (arr_walk p1 rec1 l name)) (snd (arr_walk p2 rec2 l name)).
+    Proof.
+      induction 1 as [|x r Hx Hr IH]; cbn [arr_walk]; [split; reflexivity|].
+      destruct r as [|y r'].
+      - cbn [fst snd]. split; [now apply le_terminator|reflexivity].
+      - destruct IH as [IH1 IH2]. cbn [fst snd]. split; [exact IH1|].
+        apply le_bind; [apply Hx|]. intros o. apply le_bind; [exact IH2|]. intros; apply le_refl.
+    Qed.
+
+    Lemma le_jarray l name : Forall elem_le l ->
+      le (jarray_to_container p1 rec1 l name) (jarray_to_container p2 rec2 l name).
+    Proof.
+      intros H. unfold jarray_to_container. destruct l as [|x r]; [apply le_site|].
+      destruct (le_arr_walk (x :: r) name H) as [H1 H2].
+      apply le_bind; [exact H1|]. intros st. apply le_bind; [exact H2|]. intros; apply le_refl.
+    Qed.
+  End ArrLe.
+
+  Lemma le_jtoken_strong j : elem_le (jtoken_to_obj_gen p1) (jtoken_to_obj_gen p2) j.
+  Proof.
+    induction j as [| b | z | b | s | l IH | l IH] using json_ind'; unfold elem_le.
+    - split; [intros; apply le_refl|exact I].
+    - split; [intros; apply le_refl|exact I].
+    - split; [|exact I]. intros n. cbn [jtoken_to_obj_gen].
+      destruct (j_as_i64 (JInt z)); [|apply le_refl]. apply le_bind; [apply le_site|intros; apply le_refl].
+    - split; [intros; apply le_refl|exact I].
+    - split; [|exact I]. intros n. apply le_jstr.
+    - split; [|exact I]. intros n. rewrite !jtoken_arr_eq. apply le_jarray. exact IH.
+    - split.
+      + intros n. apply le_jobj.
+      + eapply Forall_impl; [|exact IH]. intros kv [H _]. exact H.
+  Qed.
+
+  Lemma le_jtoken j name : le (jtoken_to_obj_gen p1 j name) (jtoken_to_obj_gen p2 j name).
+  Proof. apply (le_jtoken_strong j). Qed.
+
+  Lemma le_listdefs def : le (jtoken_to_list_definitions_gen p1 def) (jtoken_to_list_definitions_gen p2 def).
+  Proof.
+    unfold jtoken_to_list_definitions_gen. apply le_bind; [apply le_site|intros o].
+    apply le_mapM. intros nd. apply le_bind; [apply le_site|intros items].
+    apply le_bind; [|intros; apply le_refl]. apply le_foldM. intros acc kv.
+    apply le_bind; [apply le_site|intros; apply le_refl].
+  Qed.
+
+  Lemma le_load j : le (load_story_gen p1 j) (load_story_gen p2 j).
+  Proof.
+    unfold load_story_gen.
+    destruct (jget "inkVersion" j) as [vj|]; [|apply le_refl].
+    destruct (negb (j_is_number vj)); [apply le_refl|].
+    apply le_bind; [apply le_site|intros v64]. apply le_bind; [apply le_site|intros version].
+    destruct (ink_version_current <? version)%Z; [apply le_refl|].
+    destruct (version <? ink_version_min)%Z; [apply le_refl|].
+    destruct (jget "root" j) as [rt|]; [|apply le_refl].
+    destruct (jget "listDefs" j) as [def|]; [|apply le_refl].
+    apply le_bind; [apply le_listdefs|intros defs].
+    apply le_bind; [apply le_jtoken|intros root]. destruct root; apply le_refl.
+  Qed.
+End Mono.
+
+Scheme Equality for lsite.
+(* the table in which only site s panics *)
+Definition only (s : lsite) : lsite -> bool := fun s' => lsite_beq s s'.
+Lemma only_le panics s : panics s = true -> forall s', only s s' = true -> panics s' = true.
+Proof. intros Hp s' H. apply internal_lsite_dec_bl in H. now subst. Qed.
+
+Lemma witness_panics_alone s : story_site s = true ->
+  is_panic (load_story_gen (only s) (site_witness s)) = true.
+Proof. intros Hs. destruct s; try discriminate Hs; vm_compute; reflexivity. Qed.
+
 Lemma load_panics_of_site_on panics s :
   story_site s = true -> panics s = true -> is_panic (load_story_gen panics (site_witness s)) = true.
 Proof.
   intros Hs Hp.
-  destruct s; try discriminate Hs; vm_compute; rewrite Hp; reflexivity.
+  pose proof (le_load (only s) panics (only_le panics s Hp) (site_witness s)) as H.
+  pose proof (witness_panics_alone s Hs) as Hc.
+  destruct (load_story_gen (only s) (site_witness s)); try discriminate Hc. exact H.
 Qed.
 
 (* ---------- the characterisation ---------- *)
@@ -361,3 +578,60 @@ Qed.
 (* the repaired code: every site returns BadJson *)
 Theorem load_story_repaired_total : forall j site, load_story_repaired j <> Panic site.
 Proof. apply load_total_iff. reflexivity. Qed.
+
+(* ---------- instances for the generated table ---------- *)
+Lemma load_story_status_now :
+  if story_sites_on lsite_panics
+  then exists j site, load_story j = Panic site
+  else forall j site, load_story j <> Panic site.
+Proof. exact (load_total_status lsite_panics). Qed.
+
+(* the two documents of D14, stated so that the lemma survives the repair *)
+Lemma d14_empty_root :
+  lsite_panics L_arr_last = true ->
+  exists site, load_story (w_root (JArr [])) = Panic site.
+Proof.
+  intros H. pose proof (load_panics_of_site_on lsite_panics L_arr_last eq_refl H) as Hw.
+  change (site_witness L_arr_last) with (w_root (JArr [])) in Hw. unfold load_story.
+  destruct (load_story_gen lsite_panics (w_root (JArr []))); try discriminate Hw. eauto.
+Qed.
+
+Lemma d14_empty_string :
+  lsite_panics L_str_first_char = true ->
+  exists site, load_story (w_content (JStr [])) = Panic site.
+Proof.
+  intros H. pose proof (load_panics_of_site_on lsite_panics L_str_first_char eq_refl H) as Hw.
+  change (site_witness L_str_first_char) with (w_content (JStr [])) in Hw. unfold load_story.
+  destruct (load_story_gen lsite_panics (w_content (JStr []))); try discriminate Hw. eauto.
+Qed.
+
+(* repairing sites is conservative: what the current code accepts or rejects with
+   an error, the repaired code accepts / rejects identically *)
+Lemma repair_conservative_ok j s : load_story j = Ok s -> load_story_repaired j = Ok s.
+Proof.
+  intros H. pose proof (le_load no_panics lsite_panics (fun s H => False_ind _ (Bool.diff_false_true H)) j) as L.
+  unfold load_story in H. unfold load_story_repaired.
+  destruct (load_story_gen no_panics j) as [a|k e|p]; cbn in L.
+  - congruence.
+  - destruct L as [L|L]; rewrite H in L; discriminate L.
+  - rewrite H in L. discriminate L.
+Qed.
+
+Lemma repair_conservative_err j k m : load_story j = Err k m -> load_story_repaired j = Err k m.
+Proof.
+  intros H. pose proof (le_load no_panics lsite_panics (fun s H => False_ind _ (Bool.diff_false_true H)) j) as L.
+  unfold load_story in H. unfold load_story_repaired.
+  destruct (load_story_gen no_panics j) as [a|k' e|p]; cbn in L.
+  - congruence.
+  - destruct L as [L|L]; rewrite H in L; [congruence|discriminate L].
+  - rewrite H in L. discriminate L.
+Qed.
+
+(* non-vacuity: a small well-formed story loads, with and without repair *)
+Definition tiny_story : json :=
+  w_story (JInt 21)
+    (JArr [JArr [js "^Hello"; js "\n"; JArr [js "done"; w_obj [("#n", js "g-0")]]; JNull];
+           js "done"; w_obj [("#f", JInt 1)]])
+    (w_obj [("l", w_obj [("a", JInt 1); ("b", JInt 2)])]).
+Example tiny_story_loads : is_ok (load_story tiny_story) = true /\ is_ok (load_story_repaired tiny_story) = true.
+Proof. split; vm_compute; reflexivity. Qed.
